@@ -252,6 +252,7 @@ def main():
 
     # ---- classify runs that killed a worker ---------------------------------
     harness_problem = []
+    soft_problem = []      # worker deaths that could not be pinned on one run: only fatal when nothing else was found
     # a run that ran into the worker's alarm is a hang by definition; it is not executed again just to be named
     for idx in sorted(set(hung)):
         results[idx] = ("0" * 16, False, prop + ":hang", 0, True, 0)
@@ -265,10 +266,11 @@ def main():
                            stdout=subprocess.PIPE, stderr=subprocess.PIPE, text=True)
         m = re.search(r"^end (\d+) (\S+) (\S+) (\S+) (-?\d+)", p.stdout, re.M)
         if not m:
-            harness_problem.append("run %d killed a worker and could not be classified" % idx); continue
+            soft_problem.append("run %d killed a worker and could not be classified" % idx); continue
         ok = m.group(3) == "ok"
         if ok:
-            harness_problem.append("run %d killed a worker but passes in isolation" % idx); continue
+            # (memory damaged by an EARLIER run of that worker can surface here: seen only on trees that are broken anyway)
+            soft_problem.append("run %d killed a worker but passes in isolation" % idx); continue
         results[idx] = (m.group(2), False, m.group(4), int(m.group(5)), True, 0)
 
     # ---- runs that did not repeat: harness trouble, or the subject reading what the plan does not determine? -----
@@ -455,8 +457,11 @@ def main():
             log("HARNESS: run %d is not deterministic (%s vs %s)" % (idx, h1, h2))
         sys.exit(2)
     if harness_problem:
-        for h in harness_problem: log("HARNESS: " + h)
+        for h in harness_problem + soft_problem: log("HARNESS: " + h)
         sys.exit(2)
+    if soft_problem:
+        for h in soft_problem: log(("note: " if new_violations else "HARNESS: ") + h)
+        if not new_violations: sys.exit(2)
     if evals == 0:
         log("HARNESS: no runs executed"); sys.exit(2)
     if new_violations:
